@@ -841,7 +841,15 @@ impl endpoint::Session for Session {
         let input_handle = InputHandle::from(transfer.handle.clone());
         match self.link_by_input_handle.get_mut(&input_handle) {
             Some(link_relay) => {
-                let id_and_tag = link_relay.on_incoming_transfer(transfer, payload).await?;
+                let id_and_tag = match link_relay.on_incoming_transfer(transfer, payload).await {
+                    Ok(id_and_tag) => id_and_tag,
+                    // The relay is still registered, so the peer has not detached the link,
+                    // but the local endpoint is gone: it was closed or dropped and its detach
+                    // crossed this transfer. The transfer has nowhere to go. That is no
+                    // violation by the peer and no reason to end the session.
+                    Err(crate::link::LinkRelayError::UnattachedHandle) => None,
+                    Err(error) => return Err(error.into()),
+                };
 
                 // FIXME: If the unsettled map needs this
                 if let Some((delivery_id, delivery_tag)) = id_and_tag {
